@@ -43,6 +43,8 @@ TEMPLATES = [
     ([0, 1, 2, 3, 4, 5], [(0, 3), (1, 3), (2, 3), (3, 5), (4, 5)]),          # three parents, then a join with a straggler
     ([0, 1, 2, 3], [(0, 2), (1, 2), (0, 3), (1, 3), (2, 3)]),               # criss-cross
     ([0, 1, 2, 3, 4, 5, 6], [(0, 1), (0, 2), (1, 3), (2, 3), (3, 6), (0, 4), (4, 5), (5, 6)]),  # diamond + long arm
+    # narrow, then wide: while the chain runs most workers have nothing to do; then more calls than workers are ready at once
+    ([0, 1, 2, 3, 4, 5, 6, 7], [(0, 1), (1, 2), (2, 3), (2, 4), (2, 5), (2, 6), (2, 7)]),
 ]
 
 
@@ -308,6 +310,31 @@ def monitor(case, r, interrupted=False):
     w = eng.coerce_worker_count(case["workers"])
     if maxrun > w:
         v.append(("C10", f"{maxrun} calls ran concurrently with worker_count={w}"))
+    # the pool never shrinks while there is work for it: at the start of a call, if at least `w` calls are ready (executing or
+    # queued) there are `w` live workers to run them in parallel
+    if r.sched.mode == "prim" and not (r.deadlock or r.hang):
+        exits, run_now, li = 0, 0, 0
+        snaps = [sn for _, sn in tr.labels]
+        last_q = 0
+        for t in tr.timeline:
+            if t.startswith("L:"):
+                lab = t[2:]
+                sn = snaps[li] if li < len(snaps) else None
+                li += 1
+                if sn and "q" in sn:
+                    last_q = sum(1 for x in sn["q"].strip("[]").split() if x != "D")
+                if lab in ("setStop", "interrupt"):
+                    break                  # the run is being wound up: workers are meant to go
+                if lab.startswith("finOk ") or lab.startswith("finFail "):
+                    run_now -= 1
+            elif t.startswith("exit "):
+                exits += 1
+            elif t.startswith("begin "):
+                run_now += 1
+                if exits > 0 and run_now + last_q >= w:
+                    v.append(("C10", f"{run_now + last_q} calls are ready ({run_now} executing, {last_q} queued) but {exits} of the "
+                              f"{w} worker threads have already ended: fewer than max_workers calls can run in parallel"))
+                    break
     if r.deadlock or r.hang:
         v.append(("C07", "run did not terminate: " + ("no thread can make progress (deadlock)" if r.deadlock else "step limit exceeded")))
         return v
